@@ -67,6 +67,26 @@ def run(ctx, proofs_ok):
                 return
             if vlib.correspond_stream(ctx, hft, feed_stream(ctx, fams, n, 17), f"r{fi}-{i}", "closed loop primary -> Encode/DecodeOp -> ApplyPatch on a replica: " + "+".join(fams)):
                 return
+    # GEOADD has no model of its replies (float text, geohash arithmetic); what it stores is a sorted set, and
+    # its records are checked by the closed loop on the implementation alone: primary -> Encode/DecodeOp ->
+    # ApplyPatch -> replica, dumps equal
+    from gen_api import hx
+    c = lambda *a: "resp c1 " + " ".join(hx(x) for x in a)
+    geo = ["open b mem", "open a mem", "watch 2a 2a2f2a", "conn c1"]
+    for i, cmd in enumerate([("GEOADD", "g", "13.361389", "38.115556", "Palermo", "15.087269", "37.502669", "Catania"), ("GEOADD", "g", "2", "2", "Palermo"),
+                             ("GEOADD", "g2", "200", "100", "Out"), ("ZADD", "g", "5", "plain"), ("GEOADD", "g", "-122.27652", "37.805186", "st1", "-122.2674626", "37.8062344", "st2"),
+                             ("DEL", "g2"), ("GEOADD", "g2", "0", "0", "origin"), ("GEOADD", "str", "1", "1", "m"), ("SET", "str", "v"), ("GEOADD", "str", "1", "1", "m"),
+                             ("ZREM", "g", "Palermo"), ("GEOADD", "g", "13.361389", "38.115556", "Palermo")]):
+        geo += [c(*cmd), "replicate b", "ldump", "inst b", "ldump", "inst a"]
+    g, _ = vlib.run_pair(ctx, geo, vlib.build_harness(ctx), "geo")
+    ctx.cov["evaluations"] += len(geo)
+    for i, op in enumerate(geo):
+        if op.startswith("replicate ") and i + 3 < len(g):
+            ctx.cov["replications"] = ctx.cov.get("replications", 0) + 1
+            if not g[i].startswith("ok") or g[i + 1] != g[i + 3] or not g[i + 1].startswith(("ldump", "#")):
+                vlib.record_violation(ctx, "replica-differs", {"ops": geo[:i + 4], "impl": g[:i + 4], "model": [], "stream": "GEOADD closed loop (implementation only)",
+                                                               "explain": "after the primary's records for this command went through Encode/DecodeOp and ApplyPatch, the replica's logical keyspace differs from the primary's (last and third-last line)"})
+                return
     # pattern filtering: a narrow watcher next to the `*` watcher
     pats_pool = [["t1"], ["t?"], ["t2", "l1"], ["*1"], ["[st]*"], ["z3", "t3"], ["w"], ["l2"], ["s*"], ["z1"]]
     for i in range(6 if q else 40):
